@@ -2,6 +2,7 @@ package kernel
 
 import (
 	"context"
+	"errors"
 	"fmt"
 	"math/rand"
 	"sync"
@@ -20,14 +21,15 @@ var noCtx = context.WithValue(context.Background(), rec.KeyCb, "read from a chan
 // Direction-B driver for the hand-off operators and channel bridges (C08 hand-off clause, C17): DetachTrace.tla.
 
 type DetachScenario struct {
-	Op      string // observeon subscribeon tochannel fromchannel
-	Cap     int
-	N       int
-	End     string // "C" "E" ""
-	Profile string // fast slow stall stop
-	StallAt int
-	Unsub   string // "" "random" (only with End "")
-	Park    bool   // tochannelsync: the subscribing goroutine is held for 5 ms right before it hands the channel to the observer
+	Op         string // observeon subscribeon tochannel fromchannel
+	Cap        int
+	N          int
+	End        string // "C" "E" ""
+	Profile    string // fast slow stall stop
+	StallAt    int
+	Unsub      string // "" "random" (only with End "")
+	PanicFinal bool   // observeon: a TapOnFinalize callback placed after the operator panics (the panic surfaces on the operator's own goroutine: it must go to the unhandled-error hook)
+	Park       bool   // tochannelsync: the subscribing goroutine is held for 5 ms right before it hands the channel to the observer
 }
 
 // handoutPark: goroutines that must be held at the hook point "operator_sink:ToChannel:handout" (schedule replay of the hand-out race)
@@ -75,6 +77,9 @@ func GenDetach(r *rand.Rand) DetachScenario {
 		}
 	} else if sc.Profile == "stop" || sc.End == "" {
 		sc.Unsub = "random" // a stream that never ends, or a consumer that stops, is cut by Unsubscribe
+	}
+	if sc.Op == "observeon" && sc.End != "" && sc.Unsub == "" && r.Intn(4) == 0 {
+		sc.PanicFinal = true
 	}
 	return sc
 }
@@ -251,6 +256,9 @@ func RunDetach(lg *rec.Log, sc DetachScenario, seed int64) []rec.Ev {
 	switch sc.Op {
 	case "observeon":
 		o := ro.ObserveOn[any](sc.Cap)(ctl.Observable("ctl-unsafe", nil))
+		if sc.PanicFinal {
+			o = ro.TapOnFinalize[any](func() { panic(errors.New("verif: this finalizer panics")) })(o)
+		}
 		guard(0, func() { s := o.SubscribeWithContext(base, obs); subMu.Lock(); sub = s; subMu.Unlock() })
 		close(consDone)
 		if d := ctl.Dest(0); d != nil {
